@@ -350,6 +350,26 @@ def check_table(ctx, pm):
                     if not rejected:
                         ctx.violation("unknown-suffix", "unknown type suffixes are rejected", {"id": cid},
                                       observed=got, expected="an exception")
+                    # ... also when the id arrives inside a legacy (< 0.3) document whose own 'type' field names a valid type: the
+                    # date/type/respin of such a document exist only in the id, and this id does not decode
+                    for ver in ("0.0", "0.2"):
+                        for ctype in ("nightly", "production"):
+                            doc = {"header": {"version": ver},
+                                   "payload": {"compose": {"id": cid, "type": ctype}, "product": {"name": "N", "short": "X", "version": "1"},
+                                               "variants": {}}}
+                            try:
+                                ci3 = pm["ComposeInfo"]()
+                                ci3.loads(json.dumps(doc))
+                                got3 = [ci3.compose.date, ci3.compose.type, ci3.compose.respin]
+                            except Exception as e:
+                                got3 = None
+                            bad3 = got3 is not None and any(x is not None for x in got3)
+                            ctx.monitor("unknown-suffix", fired=bad3)
+                            ctx.count("unknown-suffix-in-legacy-document")
+                            n += 1
+                            if bad3:
+                                ctx.violation("unknown-suffix", "unknown type suffixes are rejected - also in a legacy document whose date/type/"
+                                              "respin exist only in its id", {"id": cid, "document": doc}, observed=got3, expected="rejected")
     return n
 
 
